@@ -24,7 +24,15 @@ pub enum Ev {
     HBoom { name: u8, ctx: u8 },
     GSpawn { name: u8, ctx: u8 },
     GSpawnBad { name: u8, ctx: u8 },
-    CDef { name: u8, ctx: u8, valid: bool },
+    CDef {
+        name: u8,
+        ctx: u8,
+        valid: bool,
+        /// re-define with the byte-identical script text of the current definition of that name
+        /// and context (a new frame, hence a new command id)
+        #[serde(default)]
+        same_text: bool,
+    },
     /// `fail`: the call asks the closure to raise (its frame carries meta {fail: true}): a call
     /// that ended in `.error` says nothing about the definition
     CCall {
@@ -55,7 +63,7 @@ pub fn strategy() -> BoxedStrategy<C17Case> {
         1 => nc().prop_map(|(name, ctx)| Ev::HBoom { name, ctx }),
         3 => nc().prop_map(|(name, ctx)| Ev::GSpawn { name, ctx }),
         1 => nc().prop_map(|(name, ctx)| Ev::GSpawnBad { name, ctx }),
-        4 => (nc(), prop_oneof![5 => Just(true), 1 => Just(false)]).prop_map(|((name, ctx), valid)| Ev::CDef { name, ctx, valid }),
+        4 => (nc(), prop_oneof![5 => Just(true), 1 => Just(false)], proptest::bool::weighted(0.3)).prop_map(|((name, ctx), valid, same_text)| Ev::CDef { name, ctx, valid, same_text }),
         3 => (nc(), proptest::bool::weighted(0.4)).prop_map(|((name, ctx), fail)| Ev::CCall { name, ctx, fail }),
         1 => Just(Ev::Probe),
         2 => Just(Ev::Restart),
@@ -309,6 +317,7 @@ fn run_in(case: &C17Case, nu: &mut Nu) -> Result<CaseInfo, Fail> {
     let mut failed_call = false;
     let mut replaced_while_down = false;
     let mut unreg_elsewhere = false;
+    let mut same_text_redefined = false;
     for (i, ev) in case.events.iter().enumerate() {
         match ev {
             Ev::HReg { name, ctx, valid } => {
@@ -405,12 +414,20 @@ fn run_in(case: &C17Case, nu: &mut Nu) -> Result<CaseInfo, Fail> {
                     }
                 }
             }
-            Ev::CDef { name, ctx, valid } => {
+            Ev::CDef { name, ctx, valid, same_text } => {
                 r.version += 1;
                 let n = CN[*name as usize];
-                let f = r.nu.append(&format!("{n}.define"), r.ctxs[*ctx as usize], Some(c_script(r.version, *valid).as_bytes()), None)?;
+                // (the text carries the version: identical text = the version of the current definition)
+                let version = match (same_text, valid, r.m.commands.get(&(*ctx, *name))) {
+                    (true, true, Some((_, v))) => {
+                        same_text_redefined = true;
+                        *v
+                    }
+                    _ => r.version,
+                };
+                let f = r.nu.append(&format!("{n}.define"), r.ctxs[*ctx as usize], Some(c_script(version, *valid).as_bytes()), None)?;
                 if *valid {
-                    r.m.commands.insert((*ctx, *name), (f.id.clone(), r.version));
+                    r.m.commands.insert((*ctx, *name), (f.id.clone(), version));
                     if r.m.commands.keys().any(|(c, nn)| nn == name && c != ctx) {
                         same_name_two_ctx = true;
                     }
@@ -511,6 +528,7 @@ fn run_in(case: &C17Case, nu: &mut Nu) -> Result<CaseInfo, Fail> {
         (failed_call, "command-call-failed-at-run-time"),
         (replaced_while_down, "replacing-register-found-only-in-history"),
         (unreg_elsewhere, "unregister-with-foreign-handler-id-in-another-context"),
+        (same_text_redefined, "command-redefined-with-identical-text"),
         (stopped_and_live, "stopped-and-live-at-restart"),
         (restarts >= 2, "two-or-more-restarts"),
     ] {
